@@ -292,6 +292,16 @@ impl Table {
         ingredient: IngredientIndex,
         memo_types: Arc<MemoTableTypes>,
     ) -> PageIndex {
+        #[cfg(salsa_rs_salsa_verif)]
+        {
+            let page = PageIndex::new(self.pages.push(Page::new::<T>(ingredient, memo_types)));
+            crate::verif_conc::emit(crate::verif_conc::Ev::Push {
+                ingredient: ingredient.as_u32(),
+                page: page.0,
+            });
+            return page;
+        }
+        #[cfg(not(salsa_rs_salsa_verif))]
         PageIndex::new(self.pages.push(Page::new::<T>(ingredient, memo_types)))
     }
 
@@ -392,6 +402,7 @@ impl Table {
         self.push_page::<T>(ingredient, memo_types())
     }
 
+    #[cfg(not(salsa_rs_salsa_verif))]
     fn take_non_full_page(&self, ingredient: IngredientIndex) -> Option<PageIndex> {
         self.non_full_pages
             .lock()
@@ -399,6 +410,19 @@ impl Table {
             .and_then(Vec::pop)
     }
 
+    /// Same as above, reporting the result while the lock is still held.
+    #[cfg(salsa_rs_salsa_verif)]
+    fn take_non_full_page(&self, ingredient: IngredientIndex) -> Option<PageIndex> {
+        let mut non_full_pages = self.non_full_pages.lock();
+        let page = non_full_pages.get_mut(&ingredient).and_then(Vec::pop);
+        crate::verif_conc::emit_locked(crate::verif_conc::Ev::Take {
+            ingredient: ingredient.as_u32(),
+            page: page.map(|page| page.0),
+        });
+        page
+    }
+
+    #[cfg(not(salsa_rs_salsa_verif))]
     pub(crate) fn record_unfilled_page(&self, ingredient: IngredientIndex, page: PageIndex) {
         self.non_full_pages
             .lock()
@@ -406,6 +430,28 @@ impl Table {
             .or_default()
             .push(page);
     }
+
+    /// Same as above, reporting the push while the lock is still held.
+    #[cfg(salsa_rs_salsa_verif)]
+    pub(crate) fn record_unfilled_page(&self, ingredient: IngredientIndex, page: PageIndex) {
+        let mut non_full_pages = self.non_full_pages.lock();
+        non_full_pages.entry(ingredient).or_default().push(page);
+        crate::verif_conc::emit_locked(crate::verif_conc::Ev::Record {
+            ingredient: ingredient.as_u32(),
+            page: page.0,
+        });
+    }
+}
+
+#[cfg(salsa_rs_salsa_verif)]
+pub(crate) fn verif_table_shape(table: &Table) -> (usize, usize) {
+    (PAGE_LEN, table.pages.count())
+}
+
+#[cfg(salsa_rs_salsa_verif)]
+pub(crate) fn verif_allocated_of(table: &Table, id: Id) -> usize {
+    let (page, _) = split_id(id);
+    table.pages[page.0].allocated.load(Ordering::Acquire)
 }
 
 struct ErasedSlots<'db> {
@@ -477,6 +523,12 @@ impl<'db, T: Slot> PageView<'db, T> {
         V: FnOnce(Id) -> T,
     {
         let index = self.0.allocated.load(Ordering::Acquire);
+        #[cfg(salsa_rs_salsa_verif)]
+        crate::verif_conc::emit(crate::verif_conc::Ev::Load {
+            page: page.0,
+            index,
+            full: index >= PAGE_LEN,
+        });
         if index >= PAGE_LEN {
             return Err(value);
         }
@@ -491,12 +543,23 @@ impl<'db, T: Slot> PageView<'db, T> {
         // SAFETY: The caller guarantees we are the unique writer, and readers will not attempt to
         // access this index until we have updated the length.
         unsafe { (*entry.get()).write(value(id)) };
+        #[cfg(salsa_rs_salsa_verif)]
+        crate::verif_conc::emit(crate::verif_conc::Ev::Write {
+            page: page.0,
+            index,
+        });
 
         // SAFETY: We just initialized the value above.
         let value = unsafe { (*entry.get()).assume_init_ref() };
 
         // Update the length now that we have initialized the value.
         self.0.allocated.store(index + 1, Ordering::Release);
+        #[cfg(salsa_rs_salsa_verif)]
+        crate::verif_conc::emit(crate::verif_conc::Ev::Publish {
+            page: page.0,
+            index,
+            id_index: id.index(),
+        });
 
         Ok((id, value))
     }
